@@ -68,6 +68,9 @@ type pathState struct {
 	incon    []string
 	newWork  [][]int
 	observes []string
+	obsIDs   []string
+	obsVals  []iface
+	reachObs map[string][]string
 	known    []string
 }
 
@@ -563,7 +566,10 @@ func (m *machine) indexValue(x, idx value, it types.Type) value {
 	t := m.bvOf(idx, w)
 	n := len(elems)
 	// bounds (unsigned comparison covers negatives)
-	in := m.tt.Cmp("bvult", t, m.tt.BVConst(uint64(n), w))
+	in := m.tt.Bool(true)
+	if w >= 64 || uint64(n) <= mask(w) {
+		in = m.tt.Cmp("bvult", t, m.tt.BVConst(uint64(n), w))
+	}
 	if n == 0 || !in.isTrue() {
 		if n == 0 || m.decide([]*Term{in, m.tt.Not(in)}, true) == 1 {
 			panic(targetPanic{rt: fmt.Sprintf("index out of range [symbolic] with length %d", n)})
@@ -826,7 +832,9 @@ func (m *machine) call(caller *frame, pos token.Pos, fn value, args []value) val
 
 func (m *machine) callSSA(caller *frame, pos token.Pos, fn *ssa.Function, args []value, env []value) value {
 	if h := m.intrinsicFor(fn); h != nil {
-		return h(m, caller, fn, args)
+		if r := h(m, caller, fn, args); r != (declined{}) {
+			return r
+		}
 	}
 	if fn.Blocks == nil {
 		unsupp("no SSA body for %s", fn.String())
